@@ -948,14 +948,6 @@ package bpmn
 // What a member process does while it is created and started is abstracted to opaque events in the log of the
 // process set (assumed: a process holds no reference to the set, so it cannot touch the set's wait group, message
 // channel or completion signal, nor start the set's watchers).
-//@ func (*Process).StartAll
-//@   assumed
-//@   flag emits opaque
-//@   flag allocs
-//@ func (*Process).StartWith
-//@   assumed
-//@   flag emits opaque
-//@   flag allocs
 //@ func NewProcess
 //@   assumed
 //@   flag emits opaque
@@ -1160,3 +1152,109 @@ package bpmn
 //@                 countOn(Send, terminationChannels[*sequenceFlowId]) == old(countOn(Send, terminationChannels[*sequenceFlowId]))
 //@     invariant sequenceFlowId != nil ==> forall k schema.IdRef :: has(terminationChannels, k) && k != *sequenceFlowId ==>
 //@                 countOn(Send, terminationChannels[k]) == old(countOn(Send, terminationChannels[k])) + (visited(1, k) ? 1 : 0)
+
+// ---------------------------------------------------------------------------------------------------------------
+// process.go: completion (C02)
+
+// Waiting: one helper per call; true only on the helper's signal, false only on context expiry.  The helper takes
+// the completion lock (held by the monitor until the instance is complete) and signals; it must not be left holding
+// the lock when its waiter has gone — the signal channel is buffered.
+//@ func (*Process).WaitUntilComplete
+//@   prop C02 C07
+//@   ensures [true-only-on-the-completion-signal] complete ==> isRecv(ev(evlen - 1)) && evch(ev(evlen - 1)) != ctxdone(ctx)
+//@   ensures [false-only-on-context-expiry] !complete ==> isRecv(ev(evlen - 1)) && evch(ev(evlen - 1)) == ctxdone(ctx)
+//@   ensures [one-helper-per-wait] count(Spawn, code("(*Process).WaitUntilComplete$1")) == old(count(Spawn, code("(*Process).WaitUntilComplete$1"))) + 1
+//@ func (*Process).WaitUntilComplete$1
+//@   prop C02 C07
+//@   closureinv signal != nil && chancap(signal) >= 1
+//@   ensures [signals-once-with-the-lock-taken-and-released] evlen == old(evlen) + 1 && isSend(ev(old(evlen))) && evch(ev(old(evlen))) == signal
+
+// What starting a process contributes to the log of whoever starts it: calls, the goroutines of the triggered events
+// and of the completion monitor, the start message and the instantiation trace — and nothing that could be mistaken
+// for a caller's own bookkeeping (no wait-group operation, no receive, no close, no other trace).
+//@ spec func startFrame() bool =
+//@   unchangedKind(WgAdd) && unchangedKind(WgDone) && unchangedKind(WgWait) && unchangedKind(Recv) && unchangedKind(Close) &&
+//@   count(Trace, CeaseProcessSetTrace) == old(count(Trace, CeaseProcessSetTrace)) && count(Trace, CeaseFlowTrace) == old(count(Trace, CeaseFlowTrace)) &&
+//@   count(Spawn, code("(*ProcessSet).tracerProcess")) == old(count(Spawn, code("(*ProcessSet).tracerProcess"))) &&
+//@   count(Spawn, code("(*ProcessSet).run")) == old(count(Spawn, code("(*ProcessSet).run"))) &&
+//@   count(Spawn, code("(*ProcessSet).tracerProcess$1")) == old(count(Spawn, code("(*ProcessSet).tracerProcess$1")))
+
+//@ spec func noMonitorStarted() bool =
+//@   count(Spawn, code("(*Process).ceaseFlowMonitor$1")) == old(count(Spawn, code("(*Process).ceaseFlowMonitor$1")))
+
+//@ func (*startEvent).Trigger
+//@   prop C02
+//@   ensures [queues-one-start-message-last] isSend(ev(evlen - 1)) && evch(ev(evlen - 1)) == evt.mch && is(evval(ev(evlen - 1)), startMessage)
+//@   ensures [its-goroutine-is-started-at-most-once] count(Spawn, code("(*startEvent).run")) <= old(count(Spawn, code("(*startEvent).run"))) + 1
+//@   ensures startFrame() && noMonitorStarted()
+//@ func (*throwEvent).Trigger
+//@   prop C02
+//@   ensures [queues-one-start-message-last] isSend(ev(evlen - 1)) && evch(ev(evlen - 1)) == evt.mch && is(evval(ev(evlen - 1)), startMessage)
+//@   ensures startFrame() && noMonitorStarted()
+
+// Triggering a start event starts the completion monitor with the first one only (sync.Once): the monitor takes the
+// completion lock, so a second monitor would wait for the first for ever.
+//@ func (*Process).StartWith
+//@   prop C02 C18
+//@   flag entrylocks
+//@   flag lockeffect
+//@   requires p.flowNodeMapping != nil
+//@   requires [completion-lock-free-when-the-monitor-is-started] !oncedone(mu(p.monitorOnce)) ==> held(mu(p.complete)) == 0
+//@   ensures [monitor-started-at-most-once] count(Spawn, code("(*Process).ceaseFlowMonitor$1")) <= old(count(Spawn, code("(*Process).ceaseFlowMonitor$1"))) + 1
+//@   ensures [a-second-start-event-starts-no-second-monitor] old(oncedone(mu(p.monitorOnce))) ==>
+//@             count(Spawn, code("(*Process).ceaseFlowMonitor$1")) == old(count(Spawn, code("(*Process).ceaseFlowMonitor$1"))) && held(mu(p.complete)) == old(held(mu(p.complete)))
+//@   ensures [once-a-monitor-always-a-monitor] old(oncedone(mu(p.monitorOnce))) ==> oncedone(mu(p.monitorOnce))
+//@   ensures [no-monitor-no-lock] !oncedone(mu(p.monitorOnce)) ==> noMonitorStarted() && held(mu(p.complete)) == old(held(mu(p.complete)))
+//@   ensures startFrame()
+
+// Starting every start event.
+//@ func (*Process).StartAll
+//@   prop C02 C18
+//@   flag entrylocks
+//@   flag lockeffect
+//@   requires p.flowNodeMapping != nil
+//@   requires !oncedone(mu(p.monitorOnce)) ==> held(mu(p.complete)) == 0
+//@   ensures [at-most-one-monitor-however-many-start-events] count(Spawn, code("(*Process).ceaseFlowMonitor$1")) <= old(count(Spawn, code("(*Process).ceaseFlowMonitor$1"))) + 1
+//@   ensures startFrame()
+//@   loop 1 range *p.element.StartEvents()
+//@     invariant p.flowNodeMapping != nil && startFrame()
+//@     invariant !oncedone(mu(p.monitorOnce)) ==> held(mu(p.complete)) == 0 && count(Spawn, code("(*Process).ceaseFlowMonitor$1")) == old(count(Spawn, code("(*Process).ceaseFlowMonitor$1")))
+//@     invariant count(Spawn, code("(*Process).ceaseFlowMonitor$1")) <= old(count(Spawn, code("(*Process).ceaseFlowMonitor$1"))) + 1
+
+// The completion monitor is created holding the completion lock (so that waiters block until it is done) and is
+// the literal below.
+//@ func (*Process).ceaseFlowMonitor
+//@   prop C02
+//@   flag entrylocks
+//@   flag lockeffect
+//@   requires held(mu(p.complete)) == 0
+//@   ensures [returns-holding-the-completion-lock] held(mu(p.complete)) == 2
+//@   ensures [monitor-is-the-literal] fncode(result) == code("(*Process).ceaseFlowMonitor$1")
+//@   ensures [only-subscribes] startFrame() && unchangedKind(Spawn) && unchangedKind(Trace) && unchangedKind(Send)
+
+// The monitor: the cease-flow trace is sent at most once, as its last trace, only after every start event was seen
+// firing and after the wait for all tokens returned; the completion lock is released on every exit.
+//@ func (*Process).ceaseFlowMonitor$1
+//@   prop C02 C07
+//@   flag entrylocks
+//@   flag lockeffect
+//@   requires held(mu(p.complete)) == 2
+//@   ensures [completion-lock-released-on-every-exit] held(mu(p.complete)) == 0
+//@   ensures [at-most-one-cease-flow-trace] count(Trace, CeaseFlowTrace) <= old(count(Trace, CeaseFlowTrace)) + 1
+//@   ensures [cease-flow-only-after-all-tokens-are-gone] count(Trace, CeaseFlowTrace) == old(count(Trace, CeaseFlowTrace)) + 1 ==>
+//@             isTrace(ev(evlen - 2)) && is(evval(ev(evlen - 2)), CeaseFlowTrace) && isRecv(ev(evlen - 3)) && evch(ev(evlen - 3)) != ctxdone(ctx) &&
+//@             count(Spawn, code("(*Process).ceaseFlowMonitor$1$1")) == old(count(Spawn, code("(*Process).ceaseFlowMonitor$1$1"))) + 1
+//@   ensures [sender-released-last] isCall(ev(evlen - 1)) && evch(ev(evlen - 1)) == code("tracing|ISenderHandle.Done")
+//@   loop 1 for
+//@     invariant held(mu(p.complete)) == 2 && count(Trace, CeaseFlowTrace) == old(count(Trace, CeaseFlowTrace)) &&
+//@               count(Spawn, code("(*Process).ceaseFlowMonitor$1$1")) == old(count(Spawn, code("(*Process).ceaseFlowMonitor$1$1")))
+//@     invariant len(startEventsActivated) <= len(*p.element.StartEvents()) || true
+//@     exit ensures [every-start-event-seen-before-waiting-for-tokens] len(startEventsActivated) == len(*p.element.StartEvents())
+
+// The waiter inside the monitor: closes its channel only after the wait group of tokens drained.
+//@ func (*Process).ceaseFlowMonitor$1$1
+//@   prop C02
+//@   closureinv waitIsOver != nil
+//@   requires !closed(waitIsOver)
+//@   ensures [closes-only-after-the-wait-returned] evlen == old(evlen) + 2 && isWgWait(ev(old(evlen))) && evch(ev(old(evlen))) == mu(p.flowWaitGroup) &&
+//@             isClose(ev(old(evlen) + 1)) && evch(ev(old(evlen) + 1)) == waitIsOver
